@@ -69,6 +69,8 @@ def c16_job(job):
         tmpl["XTEMPLATE"] = "kept"
         if rng.random() < 0.5:
             tmpl.charts.append(SSCChart.blank())
+        if rng.random() < 0.3:
+            tmpl["ANIMATIONS"] = tmpl.pop("BGCHANGES")       # a template that spells a property by its legacy alias
     if not plain and rng.random() < 0.4:
         ctmpl = SSCChart.blank()
         ctmpl.credit = "from chart template"
@@ -76,15 +78,18 @@ def c16_job(job):
         ctmpl.move_to_end("NOTES")
         if rng.random() < 0.3:
             ctmpl["NOTES2"] = ctmpl.pop("NOTES")        # a template whose note data is under the legacy spelling
+    elif tmpl is not None and tmpl.charts and rng.random() < 0.5:
+        ctmpl = tmpl.charts[0]                          # the caller's chart template IS the chart inside its simfile template
     return cv.record_call(rid, "sm2ssc", src, tmpl, ctmpl, [], with_back=plain)
 
 
-def freezes_probe(rid):
+def freezes_probe(rid, with_back=False, keep_stops=False):
     from simfile.sm import SMSimfile
     sf = SMSimfile.blank()
-    del sf["STOPS"]
+    if not keep_stops:
+        del sf["STOPS"]
     sf["FREEZES"] = "4.000=1.000"
-    return cv.record_call(rid, "sm2ssc", sf, None, None, [])
+    return cv.record_call(rid, "sm2ssc", sf, None, None, [], with_back=with_back)
 
 
 def run(ctx):
